@@ -164,6 +164,12 @@ fn build(c: &Case) -> (ElfSpec, Vec<(u64, Vec<String>)>) {
             expect.push((b, vec!["data_obj".into()]));
             Some(vec![Sym { name: Some("data_obj".into()), value: b, shndx: 4, info: 0x01 }])
         }
+        9 => {
+            // an indirect function (STT_GNU_IFUNC, type 10): static glibc programs define
+            // strlen, memcpy ... this way - a defined symbol with a code address like any other
+            expect.push((b, vec!["fast_copy".into()]));
+            Some(vec![Sym { name: Some("fast_copy".into()), value: b, shndx: 4, info: 0x1A }])
+        }
         _ => {
             // symbols at the very last byte of the first segment's memory image (in its bss
             // tail when it has one) and, before it in the table, at its first byte
@@ -260,11 +266,11 @@ fn gen(thorough: bool) -> impl Fn(&mut EnumCtx) + Sync {
                 return;
             }
             let variants: Vec<(usize, usize, usize)> = if rotate {
-                vec![(counter % 2, counter % 9, (counter / 9) % 2)]
+                vec![(counter % 2, counter % 10, (counter / 10) % 2)]
             } else {
                 let mut v = vec![];
                 for ex in 0..2 {
-                    for sy in 0..9 {
+                    for sy in 0..10 {
                         for en in 0..2 {
                             v.push((ex, sy, en));
                         }
@@ -388,7 +394,7 @@ pub fn run(tier: Tier) -> i32 {
         return crate::common::finish_replay("C15", &art, &|ws| confirm_enum(&o, &g, ws));
     }
     let out = run_enum(&o, &g);
-    enum_evidence(&mut run, &out, "one case = a generated ET_EXEC file: 1-3 (thorough: 4 over the boundary shapes) PT_LOAD segments in every program-header order over page slots {0x400000, 0x401000, 0x403000, 0x10000000}, in-page offset {0, 0x10, 0xE10} (p_offset congruent), filesz {0, 1, 0x1F0, to page end, 0x1000, 0x2000}, bss tail {0, 1, to page end, 0x1800}, all 8 flag masks (single segment), optional PT_PHDR/PT_NOTE/PT_GNU_STACK, 9 symbol-table variants (none; one function; two names at one address; a named and an unnamed symbol at one address; an undefined symbol next to a defined one; a symbol at the entry; an unnamed section symbol before a named one; a data object; symbols at the first and the last byte of the image), entry at segment start or middle; only combinations whose segments occupy distinct pages; oracle = the writer's own parameters; states = distinct files; distinct_nontrivial = distinct (file, number of violated clauses)");
+    enum_evidence(&mut run, &out, "one case = a generated ET_EXEC file: 1-3 (thorough: 4 over the boundary shapes) PT_LOAD segments in every program-header order over page slots {0x400000, 0x401000, 0x403000, 0x10000000}, in-page offset {0, 0x10, 0xE10} (p_offset congruent), filesz {0, 1, 0x1F0, to page end, 0x1000, 0x2000}, bss tail {0, 1, to page end, 0x1800}, all 8 flag masks (single segment), optional PT_PHDR/PT_NOTE/PT_GNU_STACK, 10 symbol-table variants (none; an indirect function; one function; two names at one address; a named and an unnamed symbol at one address; an undefined symbol next to a defined one; a symbol at the entry; an unnamed section symbol before a named one; a data object; symbols at the first and the last byte of the image), entry at segment start or middle; only combinations whose segments occupy distinct pages; oracle = the writer's own parameters; states = distinct files; distinct_nontrivial = distinct (file, number of violated clauses)");
     run.guard("cases", out.cases >= 50_000 || out.capped, format!("{} files", out.cases));
     run.assume("ET_EXEC with p_vaddr != 0; executable stacks, TLS and dynamic segments are outside 'static well-formed' and exercised by C16");
     let code = run.finish_batch(&|ws| confirm_enum(&o, &g, ws));
